@@ -16,14 +16,17 @@ import (
 )
 
 type opT struct {
-	kind string // add, del, delc, walkdel, upd, walkstop, sortedstop, querystop
+	kind string // add, del, delc, walkdel, upd, walkstop, sortedstop, querystop; seq = two operations with no observer in between
 	path []string
 	val  string
+	sub  []opT // seq
 }
 
 func (o opT) String() string {
 	p := "[" + strings.Join(o.path, ",") + "]"
 	switch o.kind {
+	case "seq":
+		return o.sub[0].String() + "; " + o.sub[1].String() + " (nothing observed in between)"
 	case "add":
 		return fmt.Sprintf("Add(%s,%s)", p, o.val)
 	case "upd":
@@ -63,9 +66,9 @@ func seqs(alpha []string, maxLen int) [][]string {
 // visits cut short by a failing callback (the read-only operations must
 // leave nothing behind: the tree still behaves as a map afterwards)
 var stopOps = []opT{
-	{"walkstop", nil, "1"}, {"walkstop", nil, "2"},
-	{"sortedstop", nil, "1"}, {"sortedstop", nil, "2"},
-	{"querystop", []string{"*"}, "1"}, {"querystop", []string{"a"}, "2"},
+	{kind: "walkstop", val: "1"}, {kind: "walkstop", val: "2"},
+	{kind: "sortedstop", val: "1"}, {kind: "sortedstop", val: "2"},
+	{kind: "querystop", path: []string{"*"}, val: "1"}, {kind: "querystop", path: []string{"a"}, val: "2"},
 }
 
 type zeroChooser struct{}
@@ -83,14 +86,14 @@ func mkAlphabet(elems []string, pathLen, patLen int) *alphabet {
 	a := &alphabet{paths: seqs(elems, pathLen), patterns: seqs(append(append([]string{}, elems...), "*"), patLen)}
 	for _, p := range a.paths {
 		for _, v := range []string{"v1", "v2"} {
-			a.ops = append(a.ops, opT{"add", p, v})
+			a.ops = append(a.ops, opT{kind: "add", path: p, val: v})
 		}
 	}
 	for _, p := range a.paths {
-		a.ops = append(a.ops, opT{"upd", p, "v2"})
+		a.ops = append(a.ops, opT{kind: "upd", path: p, val: "v2"})
 	}
 	for _, q := range a.patterns {
-		a.ops = append(a.ops, opT{"del", q, ""}, opT{"delc", q, "v1"}, opT{"walkdel", q, "v2"})
+		a.ops = append(a.ops, opT{kind: "del", path: q}, opT{kind: "delc", path: q, val: "v1"}, opT{kind: "walkdel", path: q, val: "v2"})
 	}
 	a.ops = append(a.ops, stopOps...)
 	for _, o := range a.ops {
@@ -131,12 +134,12 @@ func mkExplicit(paths, patterns []string) *alphabet {
 	}
 	for _, p := range a.paths[:len(paths)] {
 		for _, v := range []string{"v1", "v2"} {
-			a.ops = append(a.ops, opT{"add", p, v})
+			a.ops = append(a.ops, opT{kind: "add", path: p, val: v})
 		}
-		a.ops = append(a.ops, opT{"upd", p, "v2"})
+		a.ops = append(a.ops, opT{kind: "upd", path: p, val: "v2"})
 	}
 	for _, q := range a.patterns {
-		a.ops = append(a.ops, opT{"del", q, ""}, opT{"delc", q, "v1"}, opT{"walkdel", q, "v2"})
+		a.ops = append(a.ops, opT{kind: "del", path: q}, opT{kind: "delc", path: q, val: "v1"}, opT{kind: "walkdel", path: q, val: "v2"})
 	}
 	a.ops = append(a.ops, stopOps...)
 	for _, o := range a.ops {
@@ -153,6 +156,11 @@ type sys struct {
 	a *alphabet
 	t *ctree.Tree
 	m map[string]string // model: joined path -> value ("" key = root leaf); prefix-free
+	// probeEvery: every observer is evaluated after EVERY operation of a history
+	// (also while the prefix leading to a state is replayed), not only in the
+	// state reached: what an observer leaves behind in the tree (a memo, a cached
+	// ordering) is then in place when the next mutator and observer run
+	probeEvery bool
 }
 
 func unkey(k string) []string {
@@ -228,6 +236,24 @@ func vio(class, format string, a ...interface{}) []seqmc.Violation {
 
 func (s *sys) Apply(i int) []seqmc.Violation {
 	o := s.a.ops[i]
+	if o.kind == "seq" {
+		for _, so := range o.sub {
+			if v := s.applyOne(so); len(v) > 0 {
+				return v
+			}
+		}
+	} else if v := s.applyOne(o); len(v) > 0 {
+		return v
+	}
+	if s.probeEvery {
+		if v := s.CheckState(); len(v) > 0 {
+			return v
+		}
+	}
+	return nil
+}
+
+func (s *sys) applyOne(o opT) []seqmc.Violation {
 	switch o.kind {
 	case "add":
 		before := s.t.String()
@@ -535,6 +561,36 @@ func literalGlobSpec() seqmc.Spec {
 	}}
 }
 
+// observersEverywhereSpec: a small tree in which all observers run after every
+// single operation (see sys.probeEvery); sibling sets change while keeping
+// their size (delete a/x, add a/z), are emptied and refilled.
+func observersEverywhereSpec() seqmc.Spec {
+	a := mkExplicit(
+		[]string{"a/x", "a/y", "a/z", "b", "c"},
+		[]string{"", "*", "a", "a/*", "a/x", "b", "*/x"})
+	// pairs of a delete and an add with NO observer in between: the shape of the
+	// tree changes while counts (children per node, leaves) may stay the same
+	single := append([]opT{}, a.ops...)
+	for _, d := range single {
+		if d.kind != "del" {
+			continue
+		}
+		for _, ad := range single {
+			if ad.kind != "add" || ad.val != "v1" {
+				continue
+			}
+			for _, pair := range [][]opT{{d, ad}, {ad, d}} {
+				o := opT{kind: "seq", sub: pair}
+				a.ops = append(a.ops, o)
+				a.names = append(a.names, o.String())
+			}
+		}
+	}
+	return seqmc.Spec{Name: "every observer after every operation of the history (sibling sets that change but keep their size) (closure)", Ops: a.names, Depth: 16, New: func() seqmc.Sys {
+		return &sys{a: a, t: &ctree.Tree{}, m: map[string]string{}, probeEvery: true}
+	}}
+}
+
 // ---- values of non-comparable dynamic types (slices, maps, structs holding
 // them): the tree stores interface{} values and must never compare them
 
@@ -654,6 +710,7 @@ func (harness) Specs(tier string) []seqmc.Spec {
 			mk("{a,b,c} paths<=2 patterns<=3 (closure)", []string{"a", "b", "c"}, 2, 3, 16),
 			mk("{a,a-,a.} paths<=2 patterns<=2 (closure)", []string{"a", "a-", "a."}, 2, 2, 16),
 			literalGlobSpec(),
+			observersEverywhereSpec(),
 			structuredSpec(),
 		}
 	}
@@ -667,7 +724,7 @@ func (harness) Specs(tier string) []seqmc.Spec {
 	// character that sorts below the path separator ('-' < '/'): ordering by
 	// elements differs from ordering by joined strings
 	pre := mk("{a,a-} paths<=2 patterns<=2 (closure)", []string{"a", "a-"}, 2, 2, 16)
-	return []seqmc.Spec{mk("{a,b} paths<=3 patterns<=3 (closure)", ab, 3, 3, 16), deepSpec, pre, literalGlobSpec(), structuredSpec()}
+	return []seqmc.Spec{mk("{a,b} paths<=3 patterns<=3 (closure)", ab, 3, 3, 16), deepSpec, pre, literalGlobSpec(), observersEverywhereSpec(), structuredSpec()}
 }
 
 func main() { seqmc.Main(harness{}) }
